@@ -1271,6 +1271,153 @@ func checkLegacyCaches() {
 	addNat("legacyCachesLoadOrStore", good, "… with the shape Load; compute; `if v, ok := cache.LoadOrStore(k, x); ok { return v }; return x`")
 }
 
+// checkAberrantCaches: internal/impl/legacy_message.go derives descriptors of tag-only ("aberrant") legacy
+// messages re-entrantly under aberrantMessageDescLock, entering each new descriptor into the LOCKED map
+// aberrantMessageDescCache before it is filled in (cycles).  The lock-free sync.Map legacyMessageDescCache is
+// read without the lock, so it may only receive complete descriptors: no store to it inside the re-entrant
+// function or anything it calls; at most by the outermost caller after the derivation returned.
+func checkAberrantCaches() {
+	f := parse("internal/impl/legacy_message.go")
+	var probs []string
+	var nodes []ast.Node
+	noEarly, mapLocked, outermost := false, false, false
+	if f == nil {
+		probs = append(probs, "legacy_message.go does not parse")
+	} else {
+		funcs := map[string]*ast.FuncDecl{}
+		for _, d := range f.Decls {
+			if fd, ok := d.(*ast.FuncDecl); ok && fd.Recv == nil && fd.Body != nil {
+				funcs[fd.Name.Name] = fd
+			}
+		}
+		re := funcs["aberrantLoadMessageDescReentrant"]
+		outer := funcs["aberrantLoadMessageDesc"]
+		if re == nil || outer == nil {
+			probs = append(probs, "aberrantLoadMessageDesc / aberrantLoadMessageDescReentrant not found")
+		} else {
+			// the re-entrant closure: everything reachable from the re-entrant function through functions of
+			// this file, except the locked entry points themselves (LegacyLoadMessageDesc handles complete,
+			// generated descriptors)
+			closure := map[string]bool{}
+			var visit func(name string)
+			visit = func(name string) {
+				if closure[name] {
+					return
+				}
+				closure[name] = true
+				ast.Inspect(funcs[name], func(x ast.Node) bool {
+					if c, ok := x.(*ast.CallExpr); ok {
+						if id, ok := c.Fun.(*ast.Ident); ok && funcs[id.Name] != nil && strings.HasPrefix(id.Name, "aberrant") && id.Name != "aberrantLoadMessageDesc" {
+							visit(id.Name)
+						}
+					}
+					return true
+				})
+			}
+			visit("aberrantLoadMessageDescReentrant")
+			names := make([]string, 0, len(closure))
+			for n := range closure {
+				names = append(names, n)
+			}
+			sort.Strings(names)
+			noEarly = true
+			for _, n := range names {
+				nodes = append(nodes, funcs[n])
+				ast.Inspect(funcs[n], func(x ast.Node) bool {
+					if id, ok := x.(*ast.Ident); ok && id.Name == "legacyMessageDescCache" {
+						noEarly = false
+						probs = append(probs, fmt.Sprintf("%s (re-entrant derivation) touches the lock-free cache legacyMessageDescCache at line %d: a nested descriptor becomes reachable without the lock before its cycle partner is complete", n, fset.Position(id.Pos()).Line))
+					}
+					return true
+				})
+			}
+			// the outermost caller: Lock; defer Unlock first; it may publish after the re-entrant call returned
+			ob := body(outer)
+			nodes = append(nodes, outer)
+			locked := len(ob) >= 2 && stmtCall(ob[0]) != nil && str(stmtCall(ob[0]).Fun) == "aberrantMessageDescLock.Lock"
+			if locked {
+				d, ok := ob[1].(*ast.DeferStmt)
+				locked = ok && str(d.Call.Fun) == "aberrantMessageDescLock.Unlock"
+			}
+			if !locked {
+				probs = append(probs, "aberrantLoadMessageDesc does not start with aberrantMessageDescLock.Lock(); defer aberrantMessageDescLock.Unlock()")
+			}
+			for _, c := range calls(outer, "legacyMessageDescCache.Store") {
+				_ = c
+				outermost = true
+			}
+			for _, c := range calls(outer, "legacyMessageDescCache.LoadOrStore") {
+				_ = c
+				outermost = true
+			}
+			if outermost {
+				// must come after the re-entrant call, not deferred before it
+				reCalls := calls(outer, "aberrantLoadMessageDescReentrant")
+				for _, st := range ob {
+					if d, ok := st.(*ast.DeferStmt); ok && strings.HasPrefix(str(d.Call.Fun), "legacyMessageDescCache.") {
+						_ = d // a defer in the outermost caller runs after the derivation: fine
+					}
+				}
+				for _, c := range append(calls(outer, "legacyMessageDescCache.Store"), calls(outer, "legacyMessageDescCache.LoadOrStore")...) {
+					if len(reCalls) != 1 || c.Pos() < reCalls[0].End() {
+						inDefer := false
+						for _, st := range ob {
+							if d, ok := st.(*ast.DeferStmt); ok && d.Call == c {
+								inDefer = true
+							}
+						}
+						if !inDefer {
+							noEarly = false
+							probs = append(probs, "aberrantLoadMessageDesc stores into legacyMessageDescCache before the derivation has returned")
+						}
+					}
+				}
+			}
+			// the locked map is written only inside the closure or the outermost caller, and the re-entrant
+			// function is called only from there
+			mapLocked = locked
+			for name, fd := range funcs {
+				if closure[name] || name == "aberrantLoadMessageDesc" {
+					continue
+				}
+				ast.Inspect(fd, func(x ast.Node) bool {
+					switch v := x.(type) {
+					case *ast.AssignStmt:
+						for _, l := range v.Lhs {
+							if strings.HasPrefix(str(l), "aberrantMessageDescCache") {
+								mapLocked = false
+								probs = append(probs, name+" writes aberrantMessageDescCache without holding aberrantMessageDescLock")
+							}
+						}
+					case *ast.CallExpr:
+						if id, ok := v.Fun.(*ast.Ident); ok && closure[id.Name] && id.Name == "aberrantLoadMessageDescReentrant" {
+							mapLocked = false
+							probs = append(probs, name+" calls the re-entrant derivation without holding aberrantMessageDescLock")
+						}
+					}
+					return true
+				})
+			}
+			// every other store into the lock-free cache stores a descriptor taken from a complete file descriptor
+			for name, fd := range funcs {
+				if closure[name] || name == "aberrantLoadMessageDesc" {
+					continue
+				}
+				for _, c := range append(calls(fd, "legacyMessageDescCache.Store"), calls(fd, "legacyMessageDescCache.LoadOrStore")...) {
+					if name != "legacyLoadMessageDesc" {
+						noEarly = false
+						probs = append(probs, fmt.Sprintf("%s stores into legacyMessageDescCache (line %d); only legacyLoadMessageDesc (complete generated descriptors) and the outermost aberrant caller may", name, fset.Position(c.Pos()).Line))
+					}
+				}
+			}
+		}
+	}
+	report("legacy.aberrant", probs, nodes...)
+	addBool("aberrantNoLockFreePublishWhileDeriving", noEarly, "legacy_message.go: neither aberrantLoadMessageDescReentrant nor anything it calls touches the lock-free legacyMessageDescCache; descriptors under derivation are reachable only through the locked map")
+	addBool("aberrantLockedMapOnlyUnderLock", mapLocked, "legacy_message.go: aberrantMessageDescCache is written and the re-entrant derivation is entered only under aberrantMessageDescLock (aberrantLoadMessageDesc: Lock; defer Unlock)")
+	addBool("aberrantOutermostPublishes", outermost, "legacy_message.go: the outermost caller stores the finished descriptor into the lock-free cache after the derivation returned (currently it does not; aberrant types always take the lock)")
+}
+
 func main() {
 	out := flag.String("o", "", "output Lean file")
 	man := flag.String("manifest", "", "output manifest JSON")
@@ -1288,6 +1435,7 @@ func main() {
 	checkOnceTables()
 	checkRegistry()
 	checkLegacyCaches()
+	checkAberrantCaches()
 
 	var b strings.Builder
 	b.WriteString("/- GENERATED by /verif/bin/gen-conc (go/gen-conc) from the Go sources of the current tree. Do not edit.\n")
